@@ -168,6 +168,10 @@ fn gen_op_settings(rng: &mut Rng) -> SettingsSpec {
 use simcommon::gen::sibling;
 
 pub struct BatchGen<'a> {
+    /// episode profile: most runs of this episode draw their texts from these
+    /// generator families (a process that sees a lot of one feature: capacity
+    /// limits, interners and caches keyed on that feature)
+    pub profile: Option<u32>,
     pub pool: &'a Pool,
     pub memory: Vec<String>, // texts used earlier in this batch
     pub canaries: Vec<(String, u8, SettingsSpec)>,
@@ -236,7 +240,12 @@ impl<'a> BatchGen<'a> {
     /// `max_threads` = 1 for the native leg.
     pub fn gen_run(&mut self, seed: u64, idx: u64, max_threads: usize) -> RunDesc {
         let mut rng = Rng::new(simcommon::mix(seed, "c07-run", idx));
-        let mask = GenMask::swarm(&mut rng);
+        let mut mask = GenMask::swarm(&mut rng);
+        if let Some(p) = self.profile {
+            if rng.chance(7, 10) {
+                mask = GenMask(p);
+            }
+        }
         let t = if max_threads <= 1 {
             1
         } else {
@@ -516,4 +525,15 @@ pub fn hash_order_canary() -> u64 {
         d.u64(k.0 as u64);
     }
     d.short()
+}
+
+/// Episode profile as a function of the episode number.
+pub fn episode_profile(batch: u64) -> Option<u32> {
+    match batch % 8 {
+        1 => Some(gen::G_LEGEND | gen::G_MUTATE),
+        3 => Some(gen::G_CIRCLE | gen::G_MUTATE),
+        5 => Some(gen::G_UNICODE | gen::G_TEXT | gen::G_MUTATE),
+        7 => Some(gen::G_LEGEND | gen::G_TEXT),
+        _ => None,
+    }
 }
